@@ -38,6 +38,11 @@ def gen_cases(rng, tier):
         k = rng.randrange(0, 9)
         yield {'op': 'array', 'w': w, 'items': [rng.randrange(1 << w) for _ in range(k)], 'trail': rand_bits(rng, rng.choice([0, 0, 1, 5]))}
     yield {'op': 'chunkconst'}
+    # tofile itself, run with its chunk constant replaced by a small one (the code object is re-instantiated with the constant swapped):
+    # lengths below, at, and above exact multiples of the chunk size
+    for k in (8, 16, 64):
+        for n in [0, 1, k - 3, k - 1, k, k + 1, k + 5, 2 * k - 1, 2 * k, 2 * k + 1, 3 * k, 3 * k + 7, 5 * k] + [rng.randrange(0, 6 * k) for _ in range(4 if tier == 'quick' else 60)]:
+            if n >= 0: yield {'op': 'tofile_chunk', 'chunk': k, 'bits': rand_bits(rng, n), 'cls': rng.choice(CLASSES), 'route': rng.choice(ROUTES)}
     if tier == 'thorough':
         yield {'op': 'bigfile', 'extra': 13}
 
@@ -101,6 +106,19 @@ def run_impl(c):
                 finally: os.unlink(path)
             return out
         return attempt(f)
+    if op == 'tofile_chunk':
+        import types
+        fn0 = bitstring.bits.Bits.tofile
+        code = fn0.__code__
+        big = [x for x in code.co_consts if isinstance(x, int) and not isinstance(x, bool) and x >= 8 * 1024 * 1024]
+        if len(big) != 1: return ('err', 'KeyError')          # the chunk constant is no longer a literal of tofile: the instantiation is impossible
+        fn = types.FunctionType(code.replace(co_consts=tuple(c['chunk'] if x is big[0] or x == big[0] and isinstance(x, int) and not isinstance(x, bool) else x for x in code.co_consts)),
+                                fn0.__globals__, 'tofile', fn0.__defaults__, fn0.__closure__)
+        def f():
+            s = build(c['cls'], c['bits'], c['route'])
+            sink = io.BytesIO(); fn(s, sink)
+            return [list(sink.getvalue()), list(s.tobytes()), s.bin == c['bits']]
+        return attempt(f)
     if op == 'chunkconst':
         import ast, inspect
         src = inspect.getsource(bitstring.bits.Bits.tofile)
@@ -158,6 +176,11 @@ def oracle(c, obs):
         if obs[1][1] != pad_bytes(data) or obs[1][2] != pad_bytes(data): return f"Array.tobytes/tofile differ from padded data"
         if len(obs[1]) > 3 and obs[1][3] != c['items']: return f"Array.fromfile read back {obs[1][3]} != {c['items']}"
         return None
+    if op == 'tofile_chunk':
+        if obs == ('err', 'KeyError'): return "tofile no longer holds its chunk size as a single literal: it cannot be run with a small chunk size (tie broken)"
+        b = c['bits']; exp = list(int(b + '0' * (-len(b) % 8), 2).to_bytes((len(b) + 7) // 8, 'big')) if b else []
+        if obs[0] != 'ok': return f"tofile (chunk size {c['chunk']}) of {len(b)} bits raised {obs}"
+        return None if obs[1][0] == exp and obs[1][1] == exp else f"tofile with chunk size {c['chunk']} wrote {len(obs[1][0])} bytes {obs[1][0][:12]}.. for {len(b)} bits; tobytes() is {len(exp)} bytes {exp[:12]}.."
     if op == 'chunkconst':
         return None if obs[0] == 'ok' and obs[1] > 0 and obs[1] % 8 == 0 else f"tofile chunk size {obs} is not a positive multiple of 8: chunks would be padded in the middle of the file"
     if op == 'bigfile':
@@ -183,6 +206,8 @@ def coq_check(c, obs):
         if c['via'] == 'bytesio': return f"rbits_eqb (setbytesio {clist(c['src'], cz)} {L} {O}) {cres(obs, cbits)}"
         if c['via'] == 'bitarray': return f"rbits_eqb (setbitarray {cbits(bits)} {L} {O}) {cres(obs, cbits)}"
         return f"res_eqb bits_eqb (do s <- setfile {cbits(bits)} {L} {O}; Ok (bits_of s)) {cres(obs, cbits)}"
+    if op == 'tofile_chunk' and obs[0] == 'ok':
+        return f"res_eqb zlist_eqb (tofile {cbits(c['bits'])} {cz(c['chunk'])}) (Ok {clist(obs[1][0], cz)})"
     if op == 'chunkconst' and obs[0] == 'ok':
         return f"(TOFILE_CHUNK =? {obs[1]})"
     return None
